@@ -401,6 +401,66 @@ def pack_size_find_form(lib, f, rv):
     return out
 
 
+def _promoted_range(f, idx):
+    """(lo, hi_exclusive) of a promoted `a..b` / `a..=b` constant, else None"""
+    pr = f.promoted.get(idx)
+    if not pr:
+        return None
+    for b in pr['blocks']:
+        for st in b['stmts']:
+            a = st.get('rv', {}).get('agg') if st['k'] == 'assign' else None
+            if isinstance(a, dict) and str(a.get('adt', '')).startswith('std::ops::Range'):
+                vals = [int(o['const']['scalar'], 16) for o in st['rv'].get('ops', []) if 'const' in o and o['const'].get('scalar') is not None]
+                if len(vals) >= 2:
+                    return (vals[0], vals[1] + (1 if 'Inclusive' in a['adt'] else 0))
+    return None
+
+
+def accepted_widths(ctx, R, f, tag):
+    """every width 1..8 passes the explicit precondition checks of the (un)packer: a panic path whose tests are all about the width
+    parameter and all hold for some width in 1..8 rejects values the format needs (an 8-byte output, a 7-byte address)"""
+    wp = [l for l in range(1, f.arg_count + 1) if f.local_ty(l) == 'u8']
+    if not wp:
+        return
+    W = ('param', f.local_name(wp[0]), wp[0])
+
+    def val(e, nb):
+        while e[0] == 'cast':
+            e = e[1]
+        if e == W:
+            return nb
+        c = const_eval(e)
+        return c
+
+    def truth(e, nb):
+        if e[0] == 'un' and e[1] == 'Not':
+            t = truth(e[2], nb)
+            return None if t is None else (not t)
+        if e[0] == 'bin' and e[1] in ('Lt', 'Le', 'Gt', 'Ge', 'Eq', 'Ne'):
+            a, b = val(e[2], nb), val(e[3], nb)
+            if a is None or b is None:
+                return None
+            return {'Lt': a < b, 'Le': a <= b, 'Gt': a > b, 'Ge': a >= b, 'Eq': a == b, 'Ne': a != b}[e[1]]
+        if e[0] == 'call' and isinstance(e[1], str) and e[1].endswith('::contains') and 'ops::Range' in e[1] and len(e[2]) == 2 and e[2][1] == W:
+            r = e[2][0]
+            rg = _promoted_range(f, r[1]) if r[0] == 'cpromoted' else None
+            if rg is None and r[0] == 'agg' and 'ops::Range' in r[1]:
+                d = dict(r[2])
+                lo, hi = const_eval(d.get('start', ('?',))), const_eval(d.get('end', ('?',)))
+                rg = (lo, hi + (1 if 'Inclusive' in r[1] else 0)) if lo is not None and hi is not None else None
+            return None if rg is None else (rg[0] <= nb < rg[1])
+        return None
+    rejected = set()
+    for p in explore(f, max_visits=1, havoc=True):
+        if p.end != 'diverge' or not p.decisions:
+            continue
+        for nb in range(1, 9):
+            ts = [truth(d[2], nb) for d in p.decisions]
+            if all(t is not None for t in ts) and all(bool(t) == bool(d[3]) for t, d in zip(ts, p.decisions)):
+                rejected.add(nb)
+    ctx.check(R, not rejected, tag + ':accepts-1..8', '%s panics for width(s) %s although 1..8 are all valid widths of the format: a value that needs that many bytes can be written but not read back (or not written at all)' % (tag, sorted(rejected)), fn=f)
+
+
 def packing(ctx):
     R = ctx.rule('R09.4', 'integer packing: little-endian, pack_size(n) = least k with n < 2^(8k), unpack mirrors', floor=14)
     lib = ctx.lib
@@ -653,6 +713,10 @@ def packing(ctx):
                     extra.append(fmt(rv)[:60])
         ctx.check(R, not extra, 'unpack_uint:single-decoder', 'unpack_uint has a returning path that is not the byte-wise accumulation: %s' % extra[:2], fn=f)
         ctx.check(R, step, 'unpack_uint:little-endian', 'unpacking must add byte i shifted left by 8i over the first nbytes bytes', fn=f)
+    for nm in ('bytes::pack_uint_in', 'bytes::unpack_uint'):
+        g_ = lib.fn(nm)
+        if g_ is not None:
+            accepted_widths(ctx, R, g_, nm.rsplit('::', 1)[-1])
     f = lib.fn('bytes::pack_uint')
     if f is not None:
         ok = False
